@@ -1,0 +1,378 @@
+//go:build verif
+
+package main
+
+// Verification hook (build tag "verif" only). When the environment variable
+// PIGEON_VERIF_SERVE is set to 1 the binary serves length-prefixed JSON
+// requests on stdin/stdout instead of running the command line tool; with
+// the variable unset (or the tag off) nothing changes.
+//
+// Modes:
+//   ast      grammar text -> dump of the AST built by the front-end
+//   analyze  grammar text -> AST dump after optional ast.Optimize and
+//            builder.PrepareGrammar (per-rule Nullable/LeftRecursive/Leader)
+//   build    grammar text + flags -> unformatted output of builder.BuildParser
+//   main     argv + stdin -> runs main() with exit mocked, captures streams
+//   classes  -> the keys of unicodeClasses
+
+import (
+	"bufio"
+	"bytes"
+	"encoding/binary"
+	"encoding/json"
+	"fmt"
+	"io"
+	"os"
+	"sort"
+
+	"github.com/mna/pigeon/ast"
+	"github.com/mna/pigeon/builder"
+)
+
+type verifReq struct {
+	Mode  string   `json:"mode"`
+	Text  []byte   `json:"text,omitempty"`
+	Argv  []string `json:"argv,omitempty"`
+	Stdin []byte   `json:"stdin,omitempty"`
+	// UseStdin false with mode main means: write Text to a temp file and pass
+	// it as the GRAMMAR_FILE argument.
+	UseFile bool `json:"use_file,omitempty"`
+	UseOut  bool `json:"use_out,omitempty"`
+
+	Optimize   bool     `json:"optimize,omitempty"`
+	BasicLatin bool     `json:"basic_latin,omitempty"`
+	Nolint     bool     `json:"nolint,omitempty"`
+	LeftRec    bool     `json:"left_rec,omitempty"`
+	OptGrammar bool     `json:"opt_grammar,omitempty"`
+	Cache      bool     `json:"cache,omitempty"`
+	AltEntry   []string `json:"alt_entry,omitempty"`
+	Recv       string   `json:"recv,omitempty"`
+	NoPrepare  bool     `json:"no_prepare,omitempty"`
+}
+
+type verifNode struct {
+	K       string       `json:"k"`
+	P       [3]int       `json:"p"`
+	V       []byte       `json:"v,omitempty"`
+	I       bool         `json:"i,omitempty"`
+	Inv     bool         `json:"inv,omitempty"`
+	Chars   []rune       `json:"chars,omitempty"`
+	Ranges  []rune       `json:"ranges,omitempty"`
+	Classes []string     `json:"classes,omitempty"`
+	Labels  []string     `json:"labels,omitempty"`
+	Name    *verifNode   `json:"name,omitempty"`
+	Display *verifNode   `json:"display,omitempty"`
+	Code    *verifNode   `json:"code,omitempty"`
+	Kids    []*verifNode `json:"kids,omitempty"`
+	// analysis flags (rules only)
+	Nullable bool `json:"nullable,omitempty"`
+	LeftRec  bool `json:"leftrec,omitempty"`
+	Leader   bool `json:"leader,omitempty"`
+}
+
+type verifResp struct {
+	Err     string     `json:"err,omitempty"`
+	ErrKind string     `json:"err_kind,omitempty"` // parse | entrypoint | build | harness
+	Panic   string     `json:"panic,omitempty"`
+	AST     *verifNode `json:"ast,omitempty"`
+	HaveLR  bool       `json:"have_lr,omitempty"`
+	Src     []byte     `json:"src,omitempty"`
+	Exit    int        `json:"exit"`
+	Stdout  []byte     `json:"stdout,omitempty"`
+	Stderr  []byte     `json:"stderr,omitempty"`
+	OutFile []byte     `json:"out_file,omitempty"`
+	Classes []string   `json:"classes,omitempty"`
+}
+
+func init() {
+	if os.Getenv("PIGEON_VERIF_SERVE") != "1" {
+		return
+	}
+	verifServe()
+	os.Exit(0)
+}
+
+func verifServe() {
+	in := bufio.NewReaderSize(os.Stdin, 1<<16)
+	out := bufio.NewWriterSize(os.Stdout, 1<<16)
+	// main() closes whatever os.Stdin/os.Stdout are, so keep ours private.
+	realStdin, realStdout, realStderr := os.Stdin, os.Stdout, os.Stderr
+	_ = realStdin
+	_ = realStdout
+	for {
+		var lenb [4]byte
+		if _, err := io.ReadFull(in, lenb[:]); err != nil {
+			return
+		}
+		n := binary.BigEndian.Uint32(lenb[:])
+		buf := make([]byte, n)
+		if _, err := io.ReadFull(in, buf); err != nil {
+			return
+		}
+		var req verifReq
+		var resp verifResp
+		if err := json.Unmarshal(buf, &req); err != nil {
+			resp.Err, resp.ErrKind = err.Error(), "harness"
+		} else {
+			resp = verifHandle(&req)
+		}
+		os.Stderr = realStderr
+		b, err := json.Marshal(&resp)
+		if err != nil {
+			b, _ = json.Marshal(&verifResp{Err: err.Error(), ErrKind: "harness"})
+		}
+		binary.BigEndian.PutUint32(lenb[:], uint32(len(b)))
+		out.Write(lenb[:])
+		out.Write(b)
+		out.Flush()
+	}
+}
+
+func verifHandle(req *verifReq) (resp verifResp) {
+	defer func() {
+		if e := recover(); e != nil {
+			resp.Panic = fmt.Sprint(e)
+		}
+	}()
+	switch req.Mode {
+	case "classes":
+		for k := range unicodeClasses {
+			resp.Classes = append(resp.Classes, k)
+		}
+		sort.Strings(resp.Classes)
+	case "ast":
+		g, err := ParseReader("", bytes.NewReader(req.Text))
+		if err != nil {
+			resp.Err, resp.ErrKind = err.Error(), "parse"
+			return resp
+		}
+		resp.AST = verifDump(g.(*ast.Grammar))
+	case "analyze", "build":
+		g, err := ParseReader("", bytes.NewReader(req.Text), Memoize(req.Cache))
+		if err != nil {
+			resp.Err, resp.ErrKind = err.Error(), "parse"
+			return resp
+		}
+		grammar := g.(*ast.Grammar)
+		rules := make(map[string]struct{}, len(grammar.Rules))
+		for _, rule := range grammar.Rules {
+			rules[rule.Name.Val] = struct{}{}
+		}
+		for _, ep := range req.AltEntry {
+			if ep == "" {
+				continue
+			}
+			if _, ok := rules[ep]; !ok {
+				resp.Err, resp.ErrKind = "unknown rule name "+ep+" used as alternate entrypoint", "entrypoint"
+				return resp
+			}
+		}
+		if req.OptGrammar {
+			ast.Optimize(grammar, req.AltEntry...)
+		}
+		if req.Mode == "analyze" {
+			if !req.NoPrepare {
+				have, err := builder.PrepareGrammar(grammar)
+				resp.HaveLR = have
+				if err != nil {
+					resp.Err, resp.ErrKind = err.Error(), "build"
+				}
+			}
+			resp.AST = verifDump(grammar)
+			return resp
+		}
+		recv := req.Recv
+		if recv == "" {
+			recv = "c"
+		}
+		var outBuf bytes.Buffer
+		if err := builder.BuildParser(&outBuf, grammar,
+			builder.ReceiverName(recv), builder.Optimize(req.Optimize),
+			builder.BasicLatinLookupTable(req.BasicLatin), builder.Nolint(req.Nolint),
+			builder.SupportLeftRecursion(req.LeftRec)); err != nil {
+			resp.Err, resp.ErrKind = err.Error(), "build"
+			return resp
+		}
+		resp.Src = outBuf.Bytes()
+	case "main":
+		resp = verifMain(req)
+	default:
+		resp.Err, resp.ErrKind = "unknown mode "+req.Mode, "harness"
+	}
+	return resp
+}
+
+type verifExit struct{ code int }
+
+func verifMain(req *verifReq) (resp verifResp) {
+	dir, err := os.MkdirTemp("", "pigeon-verif-")
+	if err != nil {
+		resp.Err, resp.ErrKind = err.Error(), "harness"
+		return resp
+	}
+	defer os.RemoveAll(dir)
+	mk := func(name string, content []byte) *os.File {
+		p := dir + "/" + name
+		if err := os.WriteFile(p, content, 0o600); err != nil {
+			panic(err)
+		}
+		f, err := os.OpenFile(p, os.O_RDWR, 0)
+		if err != nil {
+			panic(err)
+		}
+		return f
+	}
+	stdinData := req.Stdin
+	argv := append([]string{"pigeon"}, req.Argv...)
+	if req.UseOut {
+		argv = append(argv, "-o", dir+"/out.go")
+	}
+	if req.UseFile {
+		if err := os.WriteFile(dir+"/grammar.peg", req.Text, 0o600); err != nil {
+			panic(err)
+		}
+		argv = append(argv, dir+"/grammar.peg")
+	} else if stdinData == nil {
+		stdinData = req.Text
+	}
+	saveIn, saveOut, saveErr, saveArgs, saveExit := os.Stdin, os.Stdout, os.Stderr, os.Args, exit
+	fin, fout, ferr := mk("stdin", stdinData), mk("stdout", nil), mk("stderr", nil)
+	os.Stdin, os.Stdout, os.Stderr, os.Args = fin, fout, ferr, argv
+	exit = func(code int) { panic(verifExit{code}) }
+	func() {
+		defer func() {
+			os.Stdin, os.Stdout, os.Stderr, os.Args, exit = saveIn, saveOut, saveErr, saveArgs, saveExit
+			if e := recover(); e != nil {
+				if ve, ok := e.(verifExit); ok {
+					resp.Exit = ve.code
+					return
+				}
+				resp.Exit = 2 // what an escaping Go panic gives the real process
+				resp.Panic = fmt.Sprint(e)
+			}
+		}()
+		main()
+	}()
+	fin.Close()
+	fout.Close()
+	ferr.Close()
+	resp.Stdout, _ = os.ReadFile(dir + "/stdout")
+	resp.Stderr, _ = os.ReadFile(dir + "/stderr")
+	if req.UseOut {
+		resp.OutFile, _ = os.ReadFile(dir + "/out.go")
+	}
+	return resp
+}
+
+func verifPos(p ast.Pos) [3]int { return [3]int{p.Line, p.Col, p.Off} }
+
+func verifDump(g *ast.Grammar) *verifNode {
+	n := &verifNode{K: "grammar", P: verifPos(g.Pos())}
+	if g.Init != nil {
+		n.Code = &verifNode{K: "code", P: verifPos(g.Init.Pos()), V: []byte(g.Init.Val)}
+	}
+	for _, r := range g.Rules {
+		rn := &verifNode{K: "rule", P: verifPos(r.Pos()), Nullable: r.Nullable, LeftRec: r.LeftRecursive, Leader: r.Leader}
+		if r.Name != nil {
+			rn.Name = &verifNode{K: "ident", P: verifPos(r.Name.Pos()), V: []byte(r.Name.Val)}
+		}
+		if r.DisplayName != nil {
+			rn.Display = &verifNode{K: "string", P: verifPos(r.DisplayName.Pos()), V: []byte(r.DisplayName.Val)}
+		}
+		rn.Kids = []*verifNode{verifDumpExpr(r.Expr)}
+		n.Kids = append(n.Kids, rn)
+	}
+	return n
+}
+
+func verifCode(c *ast.CodeBlock) *verifNode {
+	if c == nil {
+		return nil
+	}
+	return &verifNode{K: "code", P: verifPos(c.Pos()), V: []byte(c.Val)}
+}
+
+func verifIdent(i *ast.Identifier) *verifNode {
+	if i == nil {
+		return nil
+	}
+	return &verifNode{K: "ident", P: verifPos(i.Pos()), V: []byte(i.Val)}
+}
+
+func verifDumpExpr(e ast.Expression) *verifNode {
+	if e == nil {
+		return &verifNode{K: "nil"}
+	}
+	n := &verifNode{P: verifPos(e.Pos())}
+	one := func(k string, sub ast.Expression) *verifNode {
+		n.K = k
+		n.Kids = []*verifNode{verifDumpExpr(sub)}
+		return n
+	}
+	switch e := e.(type) {
+	case *ast.ChoiceExpr:
+		n.K = "choice"
+		for _, a := range e.Alternatives {
+			n.Kids = append(n.Kids, verifDumpExpr(a))
+		}
+	case *ast.SeqExpr:
+		n.K = "seq"
+		for _, a := range e.Exprs {
+			n.Kids = append(n.Kids, verifDumpExpr(a))
+		}
+	case *ast.RecoveryExpr:
+		n.K = "recover"
+		n.Kids = []*verifNode{verifDumpExpr(e.Expr), verifDumpExpr(e.RecoverExpr)}
+		for _, l := range e.Labels {
+			n.Labels = append(n.Labels, string(l))
+		}
+	case *ast.ActionExpr:
+		n.Code = verifCode(e.Code)
+		return one("action", e.Expr)
+	case *ast.ThrowExpr:
+		n.K = "throw"
+		n.V = []byte(e.Label)
+	case *ast.LabeledExpr:
+		n.Name = verifIdent(e.Label)
+		return one("label", e.Expr)
+	case *ast.AndExpr:
+		return one("and", e.Expr)
+	case *ast.NotExpr:
+		return one("not", e.Expr)
+	case *ast.ZeroOrOneExpr:
+		return one("opt", e.Expr)
+	case *ast.ZeroOrMoreExpr:
+		return one("star", e.Expr)
+	case *ast.OneOrMoreExpr:
+		return one("plus", e.Expr)
+	case *ast.RuleRefExpr:
+		n.K = "ref"
+		n.Name = verifIdent(e.Name)
+	case *ast.StateCodeExpr:
+		n.K = "state"
+		n.Code = verifCode(e.Code)
+	case *ast.AndCodeExpr:
+		n.K = "andcode"
+		n.Code = verifCode(e.Code)
+	case *ast.NotCodeExpr:
+		n.K = "notcode"
+		n.Code = verifCode(e.Code)
+	case *ast.LitMatcher:
+		n.K = "lit"
+		n.V = []byte(e.Val)
+		n.I = e.IgnoreCase
+	case *ast.CharClassMatcher:
+		n.K = "class"
+		n.V = []byte(e.Val)
+		n.I = e.IgnoreCase
+		n.Inv = e.Inverted
+		n.Chars = e.Chars
+		n.Ranges = e.Ranges
+		n.Classes = e.UnicodeClasses
+	case *ast.AnyMatcher:
+		n.K = "any"
+	default:
+		n.K = fmt.Sprintf("unknown:%T", e)
+	}
+	return n
+}
